@@ -128,6 +128,16 @@ func c01Round(m map[string]any, kind string) Case {
 		return Case{Kind: kind, Desc: map[string]any{"m": fmt.Sprint(m), "panic": pn}, Fail: []string{"panic in FromMap/AsMap: " + pn}, Nontrivial: true,
 			Coq: "CRound " + gGval(normGeneric(m)) + " GNil"}
 	}
+	// the exported value is the caller's: a consumer that fills in defaults (also inside empty
+	// mappings and lists) must not change what the next export — of this or of any other document — gives
+	if pn := guard(func() {
+		scribble(d.AsMap())
+		if again := d.AsMap(); !reflect.DeepEqual(again, back) {
+			fail = append(fail, "AsMap() after a consumer wrote into an earlier AsMap() result differs from the first export")
+		}
+	}); pn != "" {
+		fail = append(fail, "panic around a second AsMap: "+pn)
+	}
 	if !reflect.DeepEqual(back, m) {
 		if hasIndexKey(m) {
 			fail = append(fail, "AsMap(FromMap(m)) != m: member-name-ending-in-[n]-is-read-as-a-list-position")
@@ -446,7 +456,7 @@ func renderText(r *rand.Rand, m map[string]any, asJSON bool) string {
 func init() {
 	register(&Prop{
 		ID:   "C01",
-		Rule: "kinds: round (AsMap(FromMap m) for generated generic values incl. nil/empties/time.Time/map[any]any/typed slices at any position), dom (the DOM FromMap built, read node by node), asmap (builder-made documents), text (hand-listed YAML-only features + rendered/truncated/corrupted YAML and JSON through FromReader vs control decode). Extra: Serialize byte-determinism x8/x20 and EVERY prefix length of writer and reader failure (yaml+json). Non-trivial: value has a null or empty collection inside a list; text decodes to a non-empty map. Distinct by Gallina term / text.",
+		Rule: "kinds: round (AsMap(FromMap m) for generated generic values incl. nil/empties/time.Time/map[any]any/typed slices at any position), dom (the DOM FromMap built, read node by node), asmap (builder-made documents), text (hand-listed YAML-only features + rendered/truncated/corrupted YAML and JSON through FromReader vs control decode). Extra: Serialize byte-determinism x8/x20 and EVERY prefix length of writer and reader failure (yaml+json). Non-trivial: value has a null or empty collection inside a list; text decodes to a non-empty map. Distinct by Gallina term / text. After every round trip a consumer writes into the exported value (also into its empty mappings and lists) and the document is exported again.",
 		Corpus: func() []Case {
 			cs := []Case{
 				c01Round(map[string]any{"a": []any{1, nil, 3}}, "round"), // pinned-tree defect
